@@ -122,6 +122,10 @@ where
     pub lexemes: Vec<DefaultLexeme<T>>,
     pub text: String,
     nlc: NewlineCache,
+    /// lexeme `.0` is unlexable text: the lexer yields an error item with its span there and
+    /// then stops (`.1` false) or goes on with the remaining lexemes (`.1` true) - both are
+    /// documented behaviours of `Lexer::iter`
+    pub lex_error: Option<(usize, bool)>,
 }
 
 /// Layout of an input: positive lengths, random gaps => every lexeme has a unique start.
@@ -178,7 +182,7 @@ where
             .map(|i| if i % 7 == 6 { '\n' } else { 'x' })
             .collect();
         let nlc = NewlineCache::from_str(&text).unwrap();
-        VLexer { lexemes, text, nlc }
+        VLexer { lexemes, text, nlc, lex_error: None }
     }
 }
 
@@ -189,7 +193,10 @@ where
     fn iter<'a>(
         &'a self,
     ) -> Box<dyn Iterator<Item = Result<DefaultLexeme<T>, LRLexError>> + 'a> {
-        Box::new(self.lexemes.iter().map(|l| Ok(*l)))
+        match self.lex_error {
+            None => Box::new(self.lexemes.iter().map(|l| Ok(*l))),
+            Some((k, goes_on)) => Box::new(self.lexemes.iter().enumerate().filter(move |(i, _)| *i <= k || goes_on).map(move |(i, l)| if i == k { Err(LRLexError::new(l.span())) } else { Ok(*l) })),
+        }
     }
 }
 
@@ -428,6 +435,50 @@ where
     let (tree, errs) = pb.parse_generictree(&lexer);
     let errs = convert_errors(b, &errs)?;
     Ok((tree.map(|t| convert_node(b, &t)), errs))
+}
+
+/// Parse an input whose lexeme `k` is unlexable text (generic tree mode and action-free map mode):
+/// (value present, number of parse errors, start offsets of the reported lexing errors) per mode.
+pub fn parse_with_lex_error(
+    b: &Built<u32>,
+    input: &[usize],
+    layout: &Layout,
+    rk: RecoveryKind,
+    k: usize,
+    goes_on: bool,
+) -> Vec<(&'static str, bool, usize, Vec<usize>)> {
+    let toks: Vec<usize> = input.iter().map(|t| b.tok_usize(*t)).collect();
+    let mut lexer = VLexer::<u32>::new(&toks, layout);
+    lexer.lex_error = Some((k, goes_on));
+    let summarise = |errs: &[LexParseError<u32, DefaultLexerTypes<u32>>]| -> (usize, Vec<usize>) {
+        let mut pe = 0;
+        let mut le = vec![];
+        for e in errs {
+            match e {
+                LexParseError::LexError(e) => le.push(lrpar::LexError::span(e).start()),
+                LexParseError::ParseError(_) => pe += 1,
+            }
+        }
+        (pe, le)
+    };
+    let mut out = vec![];
+    let pb = RTParserBuilder::new(&b.grm, &b.st).recoverer(rk);
+    let (tree, errs) = pb.parse_generictree(&lexer);
+    let (pe, le) = summarise(&errs);
+    out.push(("parse_generictree", tree.is_some(), pe, le));
+    let pb = RTParserBuilder::new(&b.grm, &b.st).recoverer(rk);
+    let (v, errs) = pb.parse_map(&lexer, &|_| 0usize, &|_, _| 0usize);
+    let (pe, le) = summarise(&errs);
+    out.push(("parse_map", v.is_some(), pe, le));
+    let nprods = usize::from(b.grm.prods_len());
+    type Act<'x> = dyn Fn(cfgrammar::RIdx<u32>, &dyn NonStreamingLexer<DefaultLexerTypes<u32>>, Span, std::vec::Drain<lrpar::parser::AStackType<DefaultLexeme<u32>, usize>>, ()) -> usize + 'x;
+    let act: &Act = &|_, _, _, args, _| args.count();
+    let acts: Vec<&Act> = (0..nprods).map(|_| act).collect();
+    let pb = RTParserBuilder::new(&b.grm, &b.st).recoverer(rk);
+    let (v, errs) = pb.parse_actions(&lexer, &acts, ());
+    let (pe, le) = summarise(&errs);
+    out.push(("parse_actions", v.is_some(), pe, le));
+    out
 }
 
 /// Debug aid: simulate the plain LR loop over the public table API and print the steps.
